@@ -1,5 +1,57 @@
 import Blue.Proofs.FileRefs
 import Blue.Proofs.StoreCrash
-/-! Property C08: the theorems the check builds and audits (spike inventory; the build phase
-    completes the list from DESIGN Appendix C.0). -/
-#print axioms Blue.StoreCrash.crash_recover
+/-! # Property C08 — no needed file is ever removed; clean-up removes only unreferenced files
+
+Property theorems only.  `Blue.FileRefs` is the transition system of
+`LsmTree::{install_version, explicit_ref, explicit_unref}`, `VersionRef` and the move of
+unreferenced SSTs to `trash/`; its `step` is the function the correspondence check runs against
+the directory listings of the real store after every version install.  The crash half is
+`StoreCrash.crash_recover`: at every crash point of every history of puts, flushes, reopens and
+compactions, under both persistence models, every SST the durable manifest names is present and
+whole (that is what makes the reopen succeed).
+
+Checked per run rather than proved: that a verifier pass removes only names from `trash/` and
+fully processed manifest fragments, and that the store reopens with unchanged contents after
+every pass (oracle on the real directory).  A reader's lazy cursor does not hold its
+`VersionRef` (D-5), so `held_files_present` does not cover files a cursor opens later — see C07. -/
+namespace Blue.Props.C08
+open Blue.FileRefs
+
+variable {F : Type} [DecidableEq F]
+
+/-- the invariant (counter exact, held versions counted, positive count ⇒ in `sst/`) is preserved
+    by every event: installing a version, taking a snapshot, dropping a reference -/
+theorem refcount_invariant_preserved {s : St F} (h : Inv s) :
+    (∀ files, Inv (step s (.install files))) ∧ (CurOk s → Inv (step s .snapshot)) ∧ (∀ i, Inv (step s (.release i))) :=
+  ⟨fun files => inv_install h files, fun hc => inv_snapshot h hc, fun i => inv_release h i⟩
+
+/-- **every file of every version that still has a holder — the current version included — is in
+    `sst/`** -/
+theorem live_files_stay {s : St F} (h : Inv s) (v : Ver F) (hv : v ∈ s.versions) (hh : v.holders ≥ 1)
+    (f : F) (hf : f ∈ v.files) : f ∈ s.sst := held_files_present h v hv hh f hf
+
+/-- crash half: at every crash point of every history, both persistence models, the reopen
+    succeeds (every manifest-named SST present and whole) and yields exactly the batches
+    `0 … k-1`, `acknowledged ≤ k ≤ appended` -/
+theorem crash_keeps_named_files (h : List Blue.StoreCrash.Client) (n : Nat) :
+    Blue.StoreCrash.Ok (Blue.StoreCrash.recoverB (Blue.StoreCrash.run Blue.StoreCrash.fs0 ((Blue.StoreCrash.opsOf h Blue.StoreCrash.kv0).take n)))
+        (Blue.StoreCrash.acked ((Blue.StoreCrash.opsOf h Blue.StoreCrash.kv0).take n))
+        (Blue.StoreCrash.appended ((Blue.StoreCrash.opsOf h Blue.StoreCrash.kv0).take n))
+    ∧ Blue.StoreCrash.Ok (Blue.StoreCrash.recoverA (Blue.StoreCrash.run Blue.StoreCrash.fs0 ((Blue.StoreCrash.opsOf h Blue.StoreCrash.kv0).take n)))
+        (Blue.StoreCrash.acked ((Blue.StoreCrash.opsOf h Blue.StoreCrash.kv0).take n))
+        (Blue.StoreCrash.appended ((Blue.StoreCrash.opsOf h Blue.StoreCrash.kv0).take n)) :=
+  Blue.StoreCrash.crash_recover_init h n
+
+/-- non-vacuity: a version is replaced while a snapshot of it is held; its file stays in `sst/`
+    until the snapshot is released, then moves to `trash/` -/
+example :
+    let s0 : St Nat := { versions := [⟨[1, 2], 1, true⟩], refs := fun f => [1, 2].count f, sst := [1, 2], trash := [] }
+    let s1 := step (step s0 .snapshot) (.install [2, 3])
+    let s2 := step s1 (.release 0)
+    s1.sst = [1, 2, 3] ∧ s1.trash = [] ∧ s2.sst = [2, 3] ∧ s2.trash = [1] := by decide
+
+end Blue.Props.C08
+
+#print axioms Blue.Props.C08.refcount_invariant_preserved
+#print axioms Blue.Props.C08.live_files_stay
+#print axioms Blue.Props.C08.crash_keeps_named_files
